@@ -22,6 +22,8 @@ ALL_PWS = ["empty", "a", "b", "nfc", "l72", "l73", "long", "long2"]
 ALL_VARIANTS = ["plain", "upper", "nfd", "wide"]
 ALL_BAD = ["space", "zwj"]
 ALL_DEVS = ["LoginMapTwice", "BcryptTrunc"]
+ALL_UX = ["plain", "under", "underb", "pct"]      # names that are no account; three are SQL LIKE patterns
+ALL_MFS = ["addr", "null", "nullparam", "upper", "utf8"]          # reverse-paths tried in MAIL
 
 CFG = """SPECIFICATION %(spec)s
 CONSTANTS
@@ -32,6 +34,10 @@ CONSTANTS
   Maps = {%(maps)s}
   Norms = {%(norms)s}
   Kinds = {%(kinds)s}
+  UxVariants = {%(ux)s}
+  Tbls = {%(tbls)s}
+  Defers = {%(defers)s}
+  MailFroms = {%(mfs)s}
   MaxOps = %(maxops)d
   Devs = {%(devs)s}
   Gen = %(gen)s
@@ -44,8 +50,10 @@ def q(xs):
 
 
 def cfg(spec="Spec", variants=ALL_VARIANTS, bad=ALL_BAD, pws=ALL_PWS, maps=ALL_MAPS, norms=("auto",),
-        kinds=ALL_KINDS, maxops=12, devs=(), gen=False, tail=""):
-    return CFG % dict(spec=spec, variants=q(variants), bad=q(bad), pws=q(pws), maps=q(maps), norms=q(norms),
+        kinds=ALL_KINDS, maxops=12, devs=(), gen=False, tail="", ux=ALL_UX, tbls=("mem",), defers=(True, False),
+        mfs=ALL_MFS):
+    return CFG % dict(ux=q(ux), tbls=q(tbls), defers=", ".join("TRUE" if d else "FALSE" for d in defers), mfs=q(mfs),
+                      spec=spec, variants=q(variants), bad=q(bad), pws=q(pws), maps=q(maps), norms=q(norms),
                       kinds=q(kinds), maxops=maxops, devs=q(devs), gen="TRUE" if gen else "FALSE", tail=tail)
 
 
@@ -102,6 +110,9 @@ def classes(b):
             if u in cur and cur[u][0] != s["pw"]:
                 tags.add("probe:%s:%s" % (s["pw"], cur[u][2]))     # wrong password against an existing account
             for x, (pw, v, sch) in cur.items():
+                if s["pw"] == pw and u == "ux" and s["sp"]["v"] != "plain":
+                    # a non-account name made of SQL pattern characters with the password of an account
+                    tags.add("pattern:%s:%s:%s" % (b["cfg"].get("tbl", "mem"), s["sp"]["v"], a))
                 if s["pw"] == pw:
                     tags.add("hit")
                     if u == x and s["sp"]["v"] != v:
@@ -135,7 +146,8 @@ def classes(b):
         elif a == "SOpen" or a == "SEhlo":
             authed = False
         elif a == "SMail":
-            tags.add("mail-after-auth" if authed else "mail-before-auth")
+            tags.add("mail-%s-auth:%s:%s" % ("after" if authed else "before", s.get("mf", "addr"),
+                                             "defer" if b["cfg"].get("defer", True) else "immediate"))
     return tags
 
 
@@ -154,7 +166,8 @@ def select(ctx, pool, n, quota):
             seen.add(id(b))
             chosen.append(b)
     for t in sorted(by_tag):
-        for b in by_tag[t][:quota]:
+        k = max(3, quota // 3) if t.startswith(("pattern:", "mail-", "probe:")) else quota
+        for b in by_tag[t][:k]:
             take(b)
     for b in pool:
         if len(chosen) >= n:
@@ -225,8 +238,11 @@ def run(ctx, replay):
             ("sim-gate", dict(pws=["a", "nfc"], variants=["plain", "upper"], bad=[],
                               kinds=["Create", "SetPw", "SOpen", "SEhlo", "SAuth", "SMail", "SRset", "SClose"],
                               tail=steer)),
-            ("sim-steer", dict(norms=["auto", "precis_casefold"], tail=steer)),
-            ("sim-full", dict(norms=["auto", "precis_casefold"], tail=GEN_TAIL)),
+            # the real table.sql_table (sqlite3) behind pass_table, names with SQL pattern characters
+            ("sim-sql", dict(pws=["a", "b"], variants=["plain", "upper"], bad=["space"], kinds=tab, tbls=["sql"],
+                             defers=[True], tail=steer)),
+            ("sim-steer", dict(norms=["auto", "precis_casefold"], tbls=["mem", "sql"], tail=steer)),
+            ("sim-full", dict(norms=["auto", "precis_casefold"], tbls=["mem", "sql"], tail=GEN_TAIL)),
         ]
         futs = [(name, pool_ex.submit(ctx.tlc, "Auth", None, name=name, workers=1, timeout=900, simulate=per,
                                       depth=2 * 12 + 3, cfg_text=cfg(gen=True, **kw))) for name, kw in sims]
@@ -297,7 +313,7 @@ def run(ctx, replay):
 
     ctx.log("replayed: %d events" % len(events))
     verdicts, by_t = ctx.validate("AuthTrace", None, events, batch=700,
-                                  cfg_text=cfg(spec="TSpec", norms=["auto", "precis_casefold"], devs=open_devs,
+                                  cfg_text=cfg(spec="TSpec", norms=["auto", "precis_casefold"], tbls=["mem", "sql"], devs=open_devs,
                                                tail=TRACE_TAIL))
 
     ctx.log("traces validated by TLC")
